@@ -1717,7 +1717,20 @@ func ruleValidLenAfterBody(c *Ctx, rule string) {
 		incs++
 		// the amount: the record's prefix AND its body
 		if as.Tok == token.ADD_ASSIGN && len(reads) >= 2 && len(reads[0].Args) == 2 && len(reads[1].Args) == 2 {
+			// the amount with its locals resolved (`prefixLen := len(lenBuf)`) and named constants folded
 			amt := exprKey(as.Rhs[0])
+			ast.Inspect(as.Rhs[0], func(z ast.Node) bool {
+				if id, ok := z.(*ast.Ident); ok {
+					if _, isConst := f.ObjOf(id).(*types.Const); isConst {
+						if cv := f.constOf(id); cv != nil && cv.String() == "4" {
+							amt += " 4 "
+						}
+					} else if rhs, _, ok := f.definedBy(f.Decl.Body, f.ObjOf(id)); ok {
+						amt += " " + exprKey(rhs) + " " // one step: `prefixLen := len(lenBuf)`
+					}
+				}
+				return true
+			})
 			pre, body := exprKey(reads[0].Args[1]), exprKey(reads[1].Args[1])
 			bodyLen := ""
 			if id, ok := ast.Unparen(reads[1].Args[1]).(*ast.Ident); ok {
@@ -1730,7 +1743,7 @@ func ruleValidLenAfterBody(c *Ctx, rule string) {
 			hasPre := strings.Contains(amt, "len("+pre+")") || regexp.MustCompile(`(^|[^0-9A-Za-z_])4([^0-9A-Za-z_]|$)`).MatchString(amt)
 			hasBody := strings.Contains(amt, "len("+body+")") || (bodyLen != "" && strings.Contains(amt, bodyLen))
 			if !hasPre || !hasBody {
-				bad, badPos = "the valid length is advanced by `"+amt+"`, which is not the length prefix plus the body of the record", as.Pos()
+				bad, badPos = "the valid length is advanced by `"+exprKey(as.Rhs[0])+"`, which is not the length prefix plus the body of the record", as.Pos()
 			}
 		}
 		al, ok := g.Locate(as)
